@@ -54,6 +54,17 @@ class EofSim:
                 return self.eof_char
             if node.id in ("True", "False", "None"):
                 return {"True": True, "False": False, "None": None}[node.id]
+            # a module-level literal (tuple / list / frozenset of token types, a string of characters) bound exactly once
+            r = self.repo.resolve_name(fn.module, node.id)
+            if r and r[0] == "global":
+                mi, nm = r[1]  # type: ignore[misc]
+                writes = [st for n_, st in mi.assigns_all if n_ == nm]
+                if len(writes) == 1:
+                    v = mi.assigns[nm]
+                    if isinstance(v, ast.Call) and call_name(v) in ("frozenset", "tuple", "set", "list") and len(v.args) == 1:
+                        v = v.args[0]
+                    if isinstance(v, (ast.List, ast.Tuple, ast.Set, ast.Constant)):
+                        return self.ev(fn, v, {})
             return UNKNOWN
         if isinstance(node, (ast.List, ast.Tuple, ast.Set)):
             vals = [self.ev(fn, e, env) for e in node.elts]
